@@ -49,13 +49,6 @@ type c13Plan struct {
 	// HTLC output with the preimage.
 	claims  map[int]int32
 	horizon int32
-
-	// kind: channel class (c13Kind*); tap: 0 no taproot, 1 simple taproot
-	// (staging scripts), 2 taproot final; blobs: the taproot resolutions
-	// carry resolution blobs (aux channel).
-	kind  int
-	tap   int
-	blobs bool
 }
 
 func (p *c13Plan) String() string {
@@ -66,9 +59,8 @@ func (p *c13Plan) String() string {
 	sort.Strings(cl)
 
 	return fmt.Sprintf("conf=%s pre=%v preHeight=%d closeHeight=%d "+
-		"claims=%v horizon=%d kind=%s tap=%d blobs=%v", ccConfNames[p.conf],
-		p.pre, p.preHeight, p.closeHeight, cl, p.horizon,
-		c13KindNames[p.kind], p.tap, p.blobs)
+		"claims=%v horizon=%d", ccConfNames[p.conf], p.pre, p.preHeight,
+		p.closeHeight, cl, p.horizon)
 }
 
 // c13Outcome is what an observer outside the process can see at the end.
@@ -94,14 +86,6 @@ type c13Outcome struct {
 	crashLast     []string          // last effect before each death
 	inconclusive  string
 	contradiction []uint64
-
-	// inputs: everything handed to the sweeper, over all process lives;
-	// inputErrs: violations of the input model (oracle a) and sweeps
-	// that could never confirm.
-	inputs    []c13InputRec
-	inputErrs []string
-	// nursery stub activity.
-	nurseryTimeoutTx, nurseryKidSweeps, publishedConfirmed int
 }
 
 func c13Set(in []string) []string {
@@ -156,22 +140,14 @@ func c13Run(t *testing.T, sc *ccScenario, plan *c13Plan,
 
 	w := newCcWorld(int32(plan.preHeight))
 	w.applyKnowledge(sc)
-	env := newC13Env(sc, plan, w)
-	w.sweepHook = env.sweepHook
 	for i, h := range plan.claims {
 		x := &sc.HTLCs[i]
 		op := wire.OutPoint{
 			Hash:  ccCommitHash(plan.conf),
 			Index: uint32(x.Out[plan.conf]),
 		}
-		claim := ccClaim{
+		w.remoteClaim[op] = ccClaim{
 			height: h, pre: x.Pre, local: plan.conf == ccL,
-		}
-		if plan.tap > 0 {
-			// The peer's witness has the taproot shape.
-			env.tapClaims[op] = claim
-		} else {
-			w.remoteClaim[op] = claim
 		}
 	}
 
@@ -189,18 +165,12 @@ func c13Run(t *testing.T, sc *ccScenario, plan *c13Plan,
 		w.mu.Unlock()
 
 		inc := w.newInc()
-		w.mu.Lock()
-		env.life = n + 1
-		w.mu.Unlock()
 		db, err := c13OpenDB(path)
 		if err != nil {
 			out.inconclusive = "open: " + err.Error()
 			return out
 		}
 		mkLog := func(cfg ChannelArbitratorConfig) (ArbitratorLog, error) {
-			// The log hands this config to the resolvers it restores.
-			env.patch(&cfg, inc)
-
 			return newBoltArbitratorLog(
 				db, cfg, chainhash.Hash(testChainHash), ccChanPoint,
 			)
@@ -218,7 +188,6 @@ func c13Run(t *testing.T, sc *ccScenario, plan *c13Plan,
 			out.inconclusive = "build: " + err.Error()
 			return out
 		}
-		env.patch(&arb.cfg, inc)
 
 		finish := func() {
 			ccStop(arb)
@@ -296,9 +265,9 @@ func c13Run(t *testing.T, sc *ccScenario, plan *c13Plan,
 					w.height = int32(plan.closeHeight)
 				}
 				w.applyClaimsLocked()
-				env.applyClaimsLocked()
 				w.mu.Unlock()
-				_ = c13DeliverClose(arb, sc, plan, plan.closeHeight)
+				_ = ccDeliverClose(arb, sc, plan.conf,
+					plan.closeHeight)
 
 				continue
 			}
@@ -306,14 +275,8 @@ func c13Run(t *testing.T, sc *ccScenario, plan *c13Plan,
 			if key := w.pumpOne(inc); key != "" {
 				continue
 			}
-			// Nothing else is pending: the nursery / the mempool
-			// move (that takes a block in reality).
-			if key := env.pumpNursery(inc); key != "" {
-				continue
-			}
 			if height < plan.horizon {
 				w.mine()
-				env.applyClaims()
 				// handleBlockbeat in a closed state.
 				arb.launchResolvers()
 
@@ -401,14 +364,6 @@ func c13Run(t *testing.T, sc *ccScenario, plan *c13Plan,
 	out.effLog = append([]string(nil), w.effLog...)
 	out.broadcast = w.forceClose > 0
 	out.notifyUnres = append([]int(nil), w.unresolvedAtNotify...)
-	out.inputs = env.inputs
-	out.inputErrs = env.checkInputs()
-	for _, e := range w.hookErrs {
-		out.inputErrs = append(out.inputErrs, e.Error())
-	}
-	out.nurseryTimeoutTx = env.nurseryTimeoutTx
-	out.nurseryKidSweeps = env.nurseryKidSweeps
-	out.publishedConfirmed = env.publishedConfirmed
 
 	return out
 }
@@ -548,25 +503,7 @@ func c13GenPlan(rt *rapid.T, sc *ccScenario) *c13Plan {
 				int32(rapid.IntRange(0, 6).Draw(rt, "claimGap"))
 		}
 	}
-	// Room for the second stage of the last HTLC: second-level transaction
-	// at the expiry, CSV (4) on top of it.
-	p.horizon = int32(maxExp) + 12
-
-	// Channel class. The scenario generator only knows the first three;
-	// a taproot channel is generated as an anchors / zero-fee-HTLC
-	// channel whose resolutions are re-dressed (c13Resolutions).
-	p.kind = rapid.SampledFrom([]int{
-		c13KindLegacy, c13KindLegacy, c13KindTweakless, c13KindTweakless,
-		c13KindAnchors, c13KindAnchors,
-		c13KindTaproot, c13KindTaproot, c13KindTaproot,
-		c13KindTaprootFinal, c13KindTaprootFinal, c13KindTaprootFinal,
-	}).Draw(rt, "c13Kind")
-	sc.ChanKind = p.kind
-	if p.kind >= c13KindTaproot {
-		sc.ChanKind = 2
-		p.tap = p.kind - c13KindTaproot + 1
-		p.blobs = rapid.IntRange(0, 2).Draw(rt, "blobs") == 0
-	}
+	p.horizon = int32(maxExp) + 4
 
 	return p
 }
@@ -687,19 +624,6 @@ func c13Compare(base, run *c13Outcome, sc *ccScenario, plan *c13Plan,
 		}
 	}
 
-	// Inputs handed to the sweeper: model (a) and equality with the
-	// uninterrupted run (b).
-	if len(run.inputErrs) > 0 {
-		return fmt.Errorf("sweeper input: %s", run.inputErrs[0])
-	}
-	onlyRun, hintDiff, err := c13CompareInputs(base, run)
-	if err != nil {
-		return err
-	}
-	st.Count("sweeper_inputs_compared", int64(len(run.inputs)))
-	st.Count("sweeper_inputs_only_after_restart", int64(onlyRun))
-	st.Count("sweeper_input_height_hint_differs", int64(hintDiff))
-
 	return nil
 }
 
@@ -728,47 +652,9 @@ func TestVerifC13Crash(t *testing.T) {
 					plan)
 			}
 		}
-		if len(base.inputErrs) > 0 {
-			rt.Fatalf("uninterrupted run: sweeper input: %s\n%v %v",
-				base.inputErrs[0], sc.sample(), plan)
-		}
 		W := base.effects
 		labels := []string{"conf=" + ccConfNames[plan.conf],
-			"terminal=" + base.state.String(),
-			"chan=" + c13KindNames[plan.kind]}
-		if plan.blobs {
-			labels = append(labels, "taproot_resolution_blobs")
-		}
-		if plan.tap > 0 && plan.conf <= ccP {
-			nRes := 0
-			for i := range sc.HTLCs {
-				if sc.HTLCs[i].hasOutput(plan.conf) {
-					nRes++
-				}
-			}
-			if nRes > 0 {
-				labels = append(labels, "taproot_htlc_resolvers")
-			}
-		}
-		if len(base.incubated) > 0 {
-			labels = append(labels, "nursery_handoff")
-			if base.state == StateFullyResolved {
-				labels = append(labels, "nursery_completed")
-			}
-		}
-		if base.nurseryTimeoutTx > 0 {
-			labels = append(labels, "nursery_published_timeout_tx")
-		}
-		if base.nurseryKidSweeps > 0 {
-			labels = append(labels, "nursery_swept_second_level_output")
-		}
-		wts := map[string]bool{}
-		for _, r := range base.inputs {
-			wts[r.wt] = true
-		}
-		for wt := range wts {
-			labels = append(labels, "wt="+wt)
-		}
+			"terminal=" + base.state.String()}
 		if base.broadcast {
 			labels = append(labels, "own_broadcast")
 		}
